@@ -180,7 +180,25 @@ pub fn error_variant(e: &wgsl_to_wgpu::CreateModuleError) -> String {
     }
 }
 
+/// Calls that start the external formatter run under a watchdog: a call that does not come back within 60 s is
+/// reported as `Panic("VERIF watchdog: ...")` (the worker thread is abandoned), so that a tree on which formatting
+/// can block makes the checks fail instead of hang.
 pub fn generate_with(src: &str, include: Option<&str>, options: WriteOptions) -> Outcome {
+    if !options.rustfmt {
+        return generate_with_unguarded(src, include, options);
+    }
+    let (tx, rx) = std::sync::mpsc::channel();
+    let (src2, inc2) = (src.to_string(), include.map(|s| s.to_string()));
+    std::thread::spawn(move || {
+        let _ = tx.send(generate_with_unguarded(&src2, inc2.as_deref(), options));
+    });
+    match rx.recv_timeout(std::time::Duration::from_secs(60)) {
+        Ok(o) => o,
+        Err(_) => Outcome::Panic("VERIF watchdog: the call with the formatter on did not return within 60 s (hang)".into()),
+    }
+}
+
+fn generate_with_unguarded(src: &str, include: Option<&str>, options: WriteOptions) -> Outcome {
     let r = std::panic::catch_unwind(std::panic::AssertUnwindSafe(|| match include {
         Some(p) => wgsl_to_wgpu::create_shader_module(src, p, options),
         None => wgsl_to_wgpu::create_shader_module_embedded(src, options),
@@ -612,4 +630,52 @@ pub fn reorder_decls(src: &str, how: &str) -> Option<String> {
         return None;
     }
     Some(out)
+}
+
+/// Renames identifiers (whole-token matches) in a WGSL source.
+pub fn rename_idents(src: &str, map: &[(String, String)]) -> String {
+    let mut out = String::with_capacity(src.len() + 64);
+    let mut cur = String::new();
+    let flush = |cur: &mut String, out: &mut String| {
+        if !cur.is_empty() {
+            match map.iter().find(|(a, _)| a == cur) {
+                Some((_, b)) => out.push_str(b),
+                None => out.push_str(cur),
+            }
+            cur.clear();
+        }
+    };
+    for ch in src.chars() {
+        if ch.is_alphanumeric() || ch == '_' {
+            cur.push(ch);
+        } else {
+            flush(&mut cur, &mut out);
+            out.push(ch);
+        }
+    }
+    flush(&mut cur, &mut out);
+    out
+}
+
+/// The same module with every module-scope variable renamed to another identifier style ("camel": `theName`,
+/// "upper": `NAME_U`). Returns the new source and the (old, new) name pairs.
+pub fn restyle_globals(src: &str, style: &str) -> Option<(String, Vec<(String, String)>)> {
+    let module = naga::front::wgsl::parse_str(src).ok()?;
+    let mut map = vec![];
+    for (_, g) in module.global_variables.iter() {
+        let n = g.name.clone()?;
+        let new = match style {
+            "camel" => {
+                let mut c = n.chars();
+                let first = c.next()?;
+                format!("the{}{}", first.to_uppercase(), c.as_str())
+            }
+            _ => format!("{}_U", n.to_uppercase()),
+        };
+        map.push((n, new));
+    }
+    if map.is_empty() {
+        return None;
+    }
+    Some((rename_idents(src, &map), map))
 }
